@@ -249,6 +249,62 @@ theorem readJit_ok {entries : List JitEntry} {fileLen rel size fileOff n : Nat}
         refine ⟨e, hmem, hle, by omega, rfl, rfl, by omega, hio⟩
       · simp at h
 
+/-! ### The judge's decidable check of a tabulated oracle implies the assumptions of the theorems -/
+
+theorem tableOk_get {adjust n : Nat} :
+    ∀ (tab : List Dec) (k : Nat), tableOk adjust n tab k = true →
+      ∀ i d, tab[i]? = some d →
+        (∀ len, d = .ok len → 1 ≤ len ∧ k + i + len ≤ n) ∧ (d = .invalid → k + i + adjust ≤ n) := by
+  intro tab
+  induction tab with
+  | nil => intro k _ i d hd; simp at hd
+  | cons x rest ih =>
+    intro k h i d hd
+    unfold tableOk at h
+    simp only [Bool.and_eq_true] at h
+    obtain ⟨hx, hrest⟩ := h
+    cases i with
+    | zero =>
+      simp only [List.getElem?_cons_zero, Option.some.injEq] at hd
+      subst hd
+      constructor
+      · intro len hl
+        subst hl
+        simp only [Bool.and_eq_true, decide_eq_true_eq] at hx
+        omega
+      · intro hi
+        subst hi
+        simp only [decide_eq_true_eq] at hx
+        omega
+    | succ j =>
+      simp only [List.getElem?_cons_succ] at hd
+      have := ih (k + 1) hrest j d hd
+      constructor
+      · intro len hl
+        have := this.1 len hl
+        omega
+      · intro hi
+        have := this.2 hi
+        omega
+
+theorem tableOk_oracle {adjust n : Nat} {tab : List Dec} (h : tableOk adjust n tab 0 = true) :
+    OracleOK n (decOfTable tab) ∧ OracleTail adjust n (decOfTable tab) := by
+  constructor
+  · intro p len hp
+    unfold decOfTable at hp
+    split at hp
+    · rename_i d hd
+      have := (tableOk_get tab 0 h p d hd).1 len hp
+      omega
+    · simp at hp
+  · intro p hp
+    unfold decOfTable at hp
+    split at hp
+    · rename_i d hd
+      have := (tableOk_get tab 0 h p d hd).2 hp
+      omega
+    · simp at hp
+
 /-! ### Rows of a listing over a file range -/
 
 theorem decode_file_rows {adjust len fo n : Nat} {D : ByteDec} {file : List UInt8}
